@@ -8,6 +8,9 @@ package kex
 
 //@ func kex.SessionCrypter.Decrypt
 //@   params s rand r
+//@   local expectedDigest = UnOp#11
+//@   local mac0 = addr:Alloc#7
+//@   local tag = addr:Alloc#2
 //@   props C05 C02(functional) C10(sweep)
 //@   sweep bounds,panic,make,nilmem
 //@   requires @suite (s.Cipher.MacAlg == 0 || macregistered(s.Cipher.MacAlg)) && encregistered(s.Cipher.EncryptAlg)
@@ -18,6 +21,8 @@ package kex
 
 //@ func kex.SessionCrypter.Encrypt
 //@   params s rand payload
+//@   local enc0 = UnOp#4 | UnOp#5 | addr:Alloc#2
+//@   local err = call:cose.Encrypt0.Encrypt#1 | call:cose.Mac0.Digest#1
 //@   props C05 C10(sweep)
 //@   sweep bounds,panic,make,nilmem
 //@   requires @suite (s.Cipher.MacAlg == 0 || macregistered(s.Cipher.MacAlg)) && encregistered(s.Cipher.EncryptAlg)
@@ -43,6 +48,9 @@ package kex
 
 //@ func kex.dhSymmetricKey
 //@   params other own p cipher
+//@   local err = addr:Alloc#4
+//@   local secretInt = UnOp#11 | UnOp#14 | UnOp#4 | addr:Alloc#6 | call:math/big.Int.Exp#1
+//@   local shSe = MakeSlice#1
 //@   props C14 C05(functional) C02(functional) C10(sweep)
 //@   sweep bounds,panic,make,nilmem,nooverflow
 //@   requires @suite suiteok(cipher)
@@ -55,6 +63,10 @@ package kex
 
 //@ func kex.ecdhSymmetricKey
 //@   params ecKey xA xB cipher
+//@   local err = UnOp#10 | UnOp#9 | addr:Alloc#4 | call:kex.ecdhParam.UnmarshalBinary#1 | call:kex.ecdhParam.UnmarshalBinary#2 | extract1:call:kex.ecdhSharedSecret#1
+//@   local sek = addr:Alloc#2
+//@   local shSe = extract0:call:kex.ecdhSharedSecret#1
+//@   local svk = addr:Alloc#3
 //@   props C14 C05(functional) C02(functional) C10(sweep)
 //@   sweep bounds,panic,make,nilmem,nooverflow
 //@   requires @suite suiteok(cipher)
@@ -64,6 +76,7 @@ package kex
 
 //@ func kex.oaepSymmetricKey
 //@   params deviceRandom ownerRandom cipher
+//@   local err = addr:Alloc#4
 //@   props C14 C05(functional) C02(functional) C10(sweep)
 //@   sweep bounds,panic,make,nilmem,nooverflow
 //@   requires @suite suiteok(cipher)
@@ -75,6 +88,9 @@ package kex
 
 //@ func kex.ecdhParam.UnmarshalBinary
 //@   params p b
+//@   local rb = UnOp#9 | addr:Alloc#3
+//@   local xb = UnOp#2 | UnOp#5 | addr:Alloc#1
+//@   local yb = UnOp#3 | UnOp#7 | addr:Alloc#2
 //@   props C14 C10
 //@   sweep bounds,panic,make,nilmem
 //@   invariant loop#1: len(xb) <= 65535 && len(yb) <= 65535 && len(rb) <= 65535
@@ -100,6 +116,7 @@ package kex
 
 //@ func kex.DHSession.MarshalCBOR
 //@   params s
+//@   local persist = UnOp#16 | UnOp#7 | addr:Alloc#1
 //@   props C14 C18 C10(sweep)
 //@   sweep bounds,panic,make
 //@   callsites Marshal 1
@@ -109,6 +126,8 @@ package kex
 
 //@ func kex.DHSession.UnmarshalCBOR
 //@   params s data
+//@   local err = call:cbor.Unmarshal#1
+//@   local persist = addr:Alloc#1
 //@   props C14 C18 C10(sweep)
 //@   sweep bounds,make
 //@   ensures @crypter ? err == nil ==> s.ID == persist.Cipher && u(s.Cipher) == SuiteOf(u(persist.Cipher)) && u(s.SEK) == u(persist.SEK) && u(s.SVK) == u(persist.SVK)
@@ -117,6 +136,7 @@ package kex
 
 //@ func kex.ECDHSession.MarshalCBOR
 //@   params s
+//@   local keyBytes = Phi#1 | call:crypto/ecdh.PrivateKey.Bytes#1
 //@   props C14 C18 C10(sweep)
 //@   sweep bounds,panic,make
 //@   callsites Marshal 1
@@ -124,6 +144,9 @@ package kex
 
 //@ func kex.ECDHSession.UnmarshalCBOR
 //@   params s data
+//@   local err = call:cbor.Unmarshal#1 | extract1:call:crypto/ecdh.Curve.NewPrivateKey#1
+//@   local key = extract0:call:crypto/ecdh.Curve.NewPrivateKey#1
+//@   local persist = addr:Alloc#1
 //@   props C14 C18 C10(sweep)
 //@   sweep bounds,make
 //@   ensures @crypter ? err == nil ==> s.ID == persist.Cipher && u(s.Cipher) == SuiteOf(u(persist.Cipher)) && u(s.SEK) == u(persist.SEK) && u(s.SVK) == u(persist.SVK)
@@ -138,6 +161,8 @@ package kex
 
 //@ func kex.OAEPSession.UnmarshalCBOR
 //@   params s data
+//@   local err = call:cbor.Unmarshal#1
+//@   local persist = addr:Alloc#1
 //@   props C14 C18 C10(sweep)
 //@   sweep bounds,make
 //@   ensures @crypter ? err == nil ==> s.ID == persist.Cipher && u(s.Cipher) == SuiteOf(u(persist.Cipher)) && u(s.SEK) == u(persist.SEK) && u(s.SVK) == u(persist.SVK)
@@ -152,6 +177,15 @@ package kex
 //@ spec ghost validatedfor
 //@ func kex.Suite.Valid
 //@   params s device owner
+//@   local deviceIsP256 = BinOp#1 | Phi#1
+//@   local deviceIsP384 = BinOp#2 | Phi#2
+//@   local deviceIsRSA = Phi#3
+//@   local deviceKey = extract0:TypeAssert#2 | extract0:TypeAssert#3
+//@   local ownerIsP256 = BinOp#9 | Phi#4
+//@   local ownerIsP384 = BinOp#10 | Phi#5
+//@   local ownerIsRSA2048 = BinOp#11 | Phi#6
+//@   local ownerIsRSA3072 = BinOp#12 | Phi#7
+//@   local ownerKey = extract0:TypeAssert#4 | extract0:TypeAssert#5
 //@   props C09 C10(sweep)
 //@   sweep bounds,panic,make,nilmem
 //@   pure
